@@ -33,6 +33,11 @@ type Table struct {
 	Pairs    int64
 	Changed  int64
 	ByLen    map[int]int
+	// distinct originals of >= 8 bytes seen in a position that is certainly targeted, and how many of them
+	// came out byte-identical (a keyed length-preserving injection fixes a given 8-byte string with
+	// probability 2^-64; a processor that forwards what it was configured to obfuscate does it every time)
+	Long, LongUnchanged int64
+	LongExample         string
 }
 
 type finding struct{ sig, detail string }
@@ -64,6 +69,15 @@ func (t *Table) Pair(path, orig, sub string) {
 	}
 	t.F[orig] = sub
 	t.ByLen[len(orig)]++
+	if len(orig) >= 8 {
+		t.Long++
+		if orig == sub {
+			t.LongUnchanged++
+			if t.LongExample == "" {
+				t.LongExample = fmt.Sprintf("%s: %q", path, orig)
+			}
+		}
+	}
 	if o2, ok := t.G[sub]; ok && o2 != orig {
 		t.add("different originals received the same substitute", fmt.Sprintf("%s: %q and %q both -> %q", path, orig, o2, sub))
 		return
@@ -573,6 +587,7 @@ type instance struct {
 	sig    int
 	all    bool
 	listed map[string]bool
+	keyLen int
 	table  *Table
 	tp     interface {
 		ConsumeTraces(context.Context, ptrace.Traces) error
@@ -592,6 +607,9 @@ type instance struct {
 // names encrypt_attributes does; a non-empty list takes precedence over encrypt_all (factory.go, makeEncryptList).
 var leaveEncryptAllDefault atomic.Bool
 
+// keyLengthOverride: 0 = the default key_length; set around newInstance by layers that vary it.
+var keyLengthOverride atomic.Int64
+
 func newInstance(sig int, all bool, list []string) (*instance, error) {
 	f := obfp.NewFactory()
 	cfg := f.CreateDefaultConfig().(*obfp.Config)
@@ -599,8 +617,12 @@ func newInstance(sig int, all bool, list []string) (*instance, error) {
 		cfg.EncryptAll = all
 	}
 	cfg.EncryptAttributes = list
+	// key_length is configuration too: short keys are valid (the default is 128)
+	if kl := keyLengthOverride.Load(); kl > 0 {
+		cfg.KeyLength = int(kl)
+	}
 	set := processortest.NewNopSettings(f.Type())
-	in := &instance{sig: sig, all: all && len(list) == 0, listed: map[string]bool{}, table: NewTable()}
+	in := &instance{sig: sig, all: all && len(list) == 0, listed: map[string]bool{}, table: NewTable(), keyLen: cfg.KeyLength}
 	for _, k := range list {
 		in.listed[k] = true
 	}
@@ -790,6 +812,15 @@ func (in *instance) finish(c *vc.Case) {
 	c.Count("substitution_pairs_observed", in.table.Pairs)
 	c.Count("substitutions_that_changed_the_string", in.table.Changed)
 	c.Count("distinct_originals", int64(len(in.table.F)))
+	c.Count("distinct_targeted_originals_of_8+_bytes", in.table.Long)
+	c.Count("distinct_targeted_originals_of_8+_bytes_forwarded_unchanged", in.table.LongUnchanged)
+	if in.table.LongUnchanged > 0 {
+		// "replaced by a substitute": a keyed length-preserving injection leaves a given string of 8 or more
+		// bytes unchanged with probability 2^-64 (0 of 7,700 per quick run on the unchanged tree)
+		c.Violation("string the processor is configured to obfuscate was forwarded unchanged",
+			fmt.Sprintf("%d of %d distinct targeted originals of 8 or more bytes came out byte-identical; first: %s (key_length=%d)", in.table.LongUnchanged, in.table.Long, in.table.LongExample, in.keyLen),
+			map[string]any{"mode_encrypt_all": in.all, "listed_keys": fmt.Sprint(keysOf(in.listed)), "key_length": in.keyLen})
+	}
 	for l, n := range in.table.ByLen {
 		if l <= 2 {
 			c.Max(fmt.Sprintf("max_distinct_originals_of_length_%d_in_one_instance", l), int64(n))
@@ -833,8 +864,14 @@ func TestC17(t *testing.T) {
 		// every other list-mode instance is configured the way a file naming only encrypt_attributes is:
 		// encrypt_all stays at its default (true) and the list takes precedence
 		leaveEncryptAllDefault.Store(modeIdx > 0 && (c.Idx/9)%2 == 0)
+		// a third of the instances run with a short key (key_length 1, 2, 3 or 16 instead of 128)
+		if c.Idx%3 == 1 {
+			keyLengthOverride.Store([]int64{1, 2, 3, 16}[(c.Idx/3)%4])
+			c.Count("instances_with_a_short_key", 1)
+		}
 		in, err := newInstance(sig, modeIdx == 0, list)
 		leaveEncryptAllDefault.Store(false)
+		keyLengthOverride.Store(0)
 		if modeIdx > 0 && (c.Idx/9)%2 == 0 {
 			c.Count("list_mode_instances_with_encrypt_all_left_at_default", 1)
 		}
